@@ -135,6 +135,8 @@ def run(facts, rep, tier):
     tuple1(F, rep)
     writeorder(F, rep)
     bytesem(F, rep)
+    everypath(F, rep, fm)
+    strdelim(F, rep)
 
     # 6 LINESEP
     linesep(F, rep, fm)
@@ -869,3 +871,189 @@ def linesep(F, rep, fm):
                                 "%s can return with the writer in the middle of a line (%s): the next statement "
                                 "would be printed on the same line" % (p.split("::")[-1], bad[0][0]),
                                 file=f.file, line=f.line, fn=p))
+
+
+# fields a printer function may consult on some paths only, one reason each
+EVERYPATH_EXEMPT = {
+    ("format_import", "ImportDecl", "alias"):
+        "From / RustFrom imports carry an alias per item; the declaration-level alias is None for them (parser)",
+    ("format_import_path", "ImportPath", "parent_levels"):
+        "an absolute path (`crate::..`) has no parent levels; the parser sets the count to 0 there",
+}
+
+
+def _node_field_reads(F, f, depth=1):
+    """(param local, struct, field) -> blocks of f that USE the field of a struct-typed AST parameter. Taking a
+    reference, copying it or packing it into a tuple only makes a view; a use is a discriminant read, an operator, a
+    branch, or a call on the field or on a view of it. A call that hands the whole parameter to a same-file function
+    counts as using what that function uses."""
+    from engines import iter_operands_rv
+
+    def key_of(pl):
+        if not (1 <= pl["l"] <= f.argc):
+            return None
+        fs = [e for e in pl["p"] if e[0] == "f"]
+        if not fs or any(e[0] == "dc" for e in pl["p"][:pl["p"].index(fs[0])]):
+            return None
+        adt = fs[0][1]
+        if not adt.startswith(AST) or F.adts.get(adt, {}).get("enum"):
+            return None
+        return (pl["l"], short(adt), fs[0][3])
+
+    views = {}          # local -> set of keys it is a view of
+
+    tviews = {}         # (tuple local, element) -> keys that element is a view of
+
+    def keys_of(pl):
+        k = key_of(pl)
+        ks = set([k]) if k else set()
+        if pl["p"] and pl["p"][0][0] == "t" and any(tl == pl["l"] for tl, _ in tviews):
+            return ks | tviews.get((pl["l"], pl["p"][0][1]), set())
+        return ks | views.get(pl["l"], set())
+
+    changed = True
+    rounds = 0
+    while changed and rounds < 8:
+        changed = False
+        rounds += 1
+        for b in f.blocks:
+            for st in b["st"]:
+                if st["s"] != "assign" or st["d"]["p"]:
+                    continue
+                rv = st["rv"]
+                src = set()
+                if rv["r"] in ("ref", "cfd") and isinstance(rv.get("p"), dict):
+                    src = keys_of(rv["p"])
+                elif rv["r"] in ("use", "cast"):
+                    pl = op_place(rv["o"])
+                    if pl is not None:
+                        src = keys_of(pl)
+                elif rv["r"] == "agg" and rv.get("ak") != "closure":
+                    for i, o in enumerate(iter_operands_rv(rv)):
+                        pl = op_place(o)
+                        ks = keys_of(pl) if pl is not None else set()
+                        if rv.get("ak") == "tuple":
+                            if not ks <= tviews.get((st["d"]["l"], i), set()) or (st["d"]["l"], i) not in tviews:
+                                tviews.setdefault((st["d"]["l"], i), set()).update(ks)
+                                changed = True
+                        src |= ks
+                if src and not src <= views.get(st["d"]["l"], set()):
+                    views.setdefault(st["d"]["l"], set()).update(src)
+                    changed = True
+    out = {}
+    for bi, b in enumerate(f.blocks):
+        used = []
+        for st in b["st"]:
+            if st["s"] != "assign":
+                continue
+            rv = st["rv"]
+            if rv["r"] in ("ref", "cfd", "use", "cast") or (rv["r"] == "agg" and rv.get("ak") != "closure"):
+                continue
+            if isinstance(rv.get("p"), dict):
+                used.append(rv["p"])
+            for o in iter_operands_rv(rv):
+                pl = op_place(o)
+                if pl is not None:
+                    used.append(pl)
+        t = b["term"]
+        if t["t"] in ("call", "tailcall"):
+            for i, o in enumerate(t["args"]):
+                pl = op_place(o)
+                if pl is None:
+                    continue
+                used.append(pl)
+                cn = callee_name(t)
+                g = F.fns.get(cn) if cn else None
+                if depth > 0 and g is not None and g.file == f.file and g.path != f.path \
+                        and 1 <= pl["l"] <= f.argc and all(e[0] == "deref" for e in pl["p"]):
+                    for (pl2, adt, fld), _bl in _node_field_reads(F, g, depth - 1).items():
+                        if pl2 == i + 1:
+                            out.setdefault((pl["l"], adt, fld), set()).add(bi)
+        elif t["t"] == "switch":
+            pl = op_place(t["on"])
+            if pl is not None:
+                used.append(pl)
+        for pl in used:
+            for k in keys_of(pl):
+                out.setdefault(k, set()).add(bi)
+    return out
+
+
+def everypath(F, rep, fm):
+    """EVERYPATH - a printer function that consults a field of the node it prints consults it on every path from its
+    entry to its return. On a path that skips the field the same text is written whatever the field holds, so two
+    nodes that differ there (an annotation present / absent) are printed alike and the formatted file means
+    something else."""
+    from engines import reaches
+    n = 0
+    for p in sorted(fm):
+        f = F.fns[p]
+        if "{" in p.split("::")[-1] or not p.startswith("incan::format::formatter"):
+            continue
+        rets = [bi for bi in range(len(f.blocks)) if f.term(bi)["t"] == "return"]
+        if not rets:
+            continue
+        fn = p.split("::")[-1]
+        for (pl, adt, fld), blocks in sorted(_node_field_reads(F, f).items()):
+            n += 1
+            cut = not reaches(f, 0, rets, avoid=blocks)
+            exempt = EVERYPATH_EXEMPT.get((fn, adt, fld))
+            inst = "%s:%s.%s" % (fn, adt, fld)
+            rep.oblige("EVERYPATH", inst, cut or bool(exempt),
+                       sample={"rule": "EVERYPATH", "fn": fn, "field": "%s.%s" % (adt, fld),
+                               "read_on_every_path": cut, "reviewed": exempt})
+            if not cut and not exempt:
+                rep.add(Finding("EVERYPATH", "EVERYPATH|%s|%s.%s" % (fn, adt, fld),
+                                "%s reads %s.%s on some paths only: on the others the printed text does not depend on "
+                                "it, so the part of the source it holds is dropped by `incan fmt`" % (fn, adt, fld),
+                                file=f.file, line=f.line, fn=p))
+    rep.floor("EVERYPATH", "fields of struct-typed nodes read by printer functions", n, 60)
+
+
+def strdelim(F, rep):
+    """STRDELIM - escape_string protects the double quote only (and the lexer's escape for a quote is tied to the
+    opening quote), so the text written around an escaped string payload is the constant `"`: in the String arm of
+    format_literal every write is that constant or the escaped payload."""
+    from engines import backward_slice, resolve_str, all_string_constants
+    fl = F.one_fn("Formatter::format_literal")
+    if not rep.anchor("STRDELIM", "Formatter::format_literal", fl):
+        return
+    sw = primary_dispatch(fl, AST + "Literal")
+    regs = arm_regions(fl, sw) if sw else {}
+    if not rep.anchor("STRDELIM", "Literal::String arm", regs.get("String")):
+        return
+    blocks = regs["String"]
+    n = 0
+    bad = []
+    escaped = False
+    for bi in sorted(blocks):
+        t = fl.term(bi)
+        if t["t"] != "call":
+            continue
+        cn = callee_name(t) or ""
+        if not (cn.endswith("FormatWriter::write") or cn.endswith("FormatWriter::writeln")):
+            continue
+        n += 1
+        o = t["args"][1]
+        v = resolve_str(fl, o)
+        if v is not None:
+            if v != '"':
+                bad.append((t.get("ln"), "writes the constant %r" % v))
+            continue
+        pl = op_place(o)
+        _, calls, _ = backward_slice(fl, [pl["l"]]) if pl is not None else (None, [], None)
+        names = [callee_name(c) or "" for _, c in calls]
+        if any(x.endswith("escape_string") for x in names):
+            escaped = True
+            # a formatted wrapper may add quotes of its own: only `"` pieces
+            continue
+        bad.append((t.get("ln"), "writes a run-time value that is not the escaped payload"))
+    rep.floor("STRDELIM", "writes in the String arm", n, 2)
+    ok = not bad and escaped
+    rep.oblige("STRDELIM", "format_literal:String", ok, sample={"rule": "STRDELIM", "writes": n, "escaped": escaped})
+    if not ok:
+        why = bad[0][1] if bad else "never writes the result of escape_string"
+        rep.add(Finding("STRDELIM", "STRDELIM|format_literal|String",
+                        "the String arm of format_literal %s: escape_string only protects `\"`, so any other "
+                        "delimiter lets a quote inside the value end the literal early (or changes what an escape "
+                        "means)" % why, file=fl.file, line=(bad[0][0] if bad else sw["ln"]), fn=fl.path))
